@@ -531,12 +531,15 @@ def addr_base58_to_pubkeyhash(address, as_hex=False):
     :return bytes, str: Public Key Hash
     """
 
+    address_b58 = address
     try:
         address = change_base(address, 58, 256, 25)
     except EncodingError as err:
         raise EncodingError("Invalid address %s: %s" % (address, err))
     if len(address) != 25:
         raise EncodingError("Invalid address hash160 length, should be 25 characters not %d" % len(address))
+    if base58encode(address).encode() != normalize_var(address_b58):
+        raise EncodingError("Invalid address %s, not a canonical base58 string" % address_b58)
     check = address[-4:]
     pkh = address[:-4]
     checksum = double_sha256(pkh)[0:4]
